@@ -35,6 +35,7 @@ CONSTANTS
     DAmts,      \* destination amount classes
     MaxDest,
     Fees, UseAll, Changes, Msgs, Seqs, Locks, Vers, SubFees, Modes,
+    SigOpts,    \* signing switches: "auto" (the concretiser picks none / -rfc6979 / -minsig), "both" (-minsig AND -rfc6979: must terminate)
     TuneTargets, TuneDeltas,   \* tuning of the last amount: demand = funds of the first k owned outputs + delta satoshi
     Raws,       \* shapes of externally supplied raw transactions
     Second,     \* subset of {"sweep"}: second send over the rewritten balance folder
@@ -52,6 +53,7 @@ MSTypes == {"MS22", "MS23", "MS13F", "MS23F"}
 MSFull(st) == st \in {"MS22", "MS23", "MS13F"}                     \* the wallet alone holds enough keys
 AllDTypes == {"P2PKH", "P2SH", "P2WPKH", "P2WSH", "P2TR", "OWN"}   \* OWN: an address of the wallet's own listing
 
+Pow64 == [h |-> 1844, u |-> 67440737, e |-> 9551616]      \* 2^64 = 18446744073709551616
 AmtOf(c) == CASE c = "sat1"  -> A(0, 1)
               [] c = "dust"  -> A(0, 546)
               [] c = "k5"    -> A(0, 5000)
@@ -59,7 +61,12 @@ AmtOf(c) == CASE c = "sat1"  -> A(0, 1)
               [] c = "mid"   -> A(0, 12345678)
               [] c = "btc"   -> A(1, 0)
               [] c = "big"   -> A(12, 34567890)
-              [] c = "huge"  -> A(20999999, 99999999)
+              [] c = "huge"  -> A(5000000, 99999999)      \* (four of them stay below the 21M BTC that can exist)
+              \* amounts no balance covers, at the edges of the code's uint64 arithmetic (the model does not wrap)
+              [] c = "p63"     -> Pow63                                        \* 2^63: two of them add up to 2^64
+              [] c = "max64"   -> [h |-> 1844, u |-> 67440737, e |-> 9551615]  \* 2^64 - 1
+              [] c = "p64"     -> Pow64                                        \* 2^64
+              [] c = "wrapfee" -> Pow64                                        \* stands for 2^64 - fee (resolved by Base)
 
 \* "def": no -fee argument and no fee line in wallet.cfg: the built-in 0.001
 FeeOf(c) == CASE c = "zero" -> Zero
@@ -75,6 +82,11 @@ SeqOf(c) == CASE c = "def"  -> [arg |-> "",           want |-> "fffffffd"]
               [] c = "zero" -> [arg |-> "0",          want |-> "00000000"]
               [] c = "n"    -> [arg |-> "305419896",  want |-> "12345678"]
               [] c = "rbf"  -> [arg |-> "4294967293", want |-> "fffffffd"]
+\* -msg: the extra output is OP_RETURN followed by the canonical (minimal) push of exactly the message bytes
+MsgLen(c) == CASE c = "none" -> 0 [] c = "short" -> 14 [] c = "long" -> 80 [] c = "m1" -> 1 [] c = "m75" -> 75 [] c = "m76" -> 76
+               [] c = "m77" -> 77 [] c = "m255" -> 255 [] c = "m256" -> 256 [] c = "m520" -> 520
+MsgOf(c) == [cls |-> c, len |-> MsgLen(c),
+             push |-> IF MsgLen(c) <= 75 THEN "direct" ELSE IF MsgLen(c) <= 255 THEN "pushdata1" ELSE "pushdata2"]
 LockOf(c) == CASE c = "def"   -> [arg |-> "",           want |-> "00000000"]
                [] c = "h"     -> [arg |-> "499999999",  want |-> "1dcd64ff"]
                [] c = "t"     -> [arg |-> "500000000",  want |-> "1dcd6500"]
@@ -90,7 +102,7 @@ Tunes == (IF "none" \in TuneTargets THEN {<<"none", 0>>} ELSE {}) \cup ((TuneTar
 NoRes == [written |-> FALSE, ins |-> <<>>, outs |-> <<>>, seqc |-> "", lt |-> "", ver |-> "", why |-> "none"]
 NoRaw == [ins |-> <<>>, outs |-> <<>>, ver |-> "", lt |-> "", signed |-> <<>>, shape |-> "none"]
 NoOpts == [fee |-> "zero", useall |-> FALSE, change |-> "none", msg |-> "none", seqc |-> "def", lt |-> "def",
-           ver |-> "def", subfee |-> FALSE, mode |-> "send", tune |-> <<"none", 0>>]
+           ver |-> "def", subfee |-> FALSE, mode |-> "send", tune |-> <<"none", 0>>, sig |-> "auto"]
 NoCfg == [wt |-> 0, atype |-> "", testnet |-> FALSE]
 
 ----------------------------------------------------------------------------
@@ -119,7 +131,9 @@ SubApplies == opts.subfee /\ opts.mode \in {"send", "mixed"}
 
 \* requested amounts; the last one may be tuned so that the demand hits a boundary of the funds:
 \* demand = (sum of the first k owned outputs | all of them) + delta satoshi
-Others == SumAmt(SubSeq(dests, 1, Len(dests) - 1))
+\* the amount written on the command line for destination i ("wrapfee": 2^64 - fee, 2^64 - 1 when the fee is zero)
+Base(i) == IF dests[i].cls = "wrapfee" THEN AmtSub(Pow64, IF FeeOf(opts.fee) = Zero THEN A(0, 1) ELSE FeeOf(opts.fee)) ELSE dests[i].amt
+Others == SumAmt([i \in 1..(Len(dests) - 1) |-> [amt |-> Base(i)]])
 TuneTarget == CASE opts.tune[1] = "first" -> FirstK(unsp, 1)
                 [] opts.tune[1] = "two"   -> FirstK(unsp, 2)
                 [] opts.tune[1] = "all"   -> TotalOwned(unsp)
@@ -128,7 +142,7 @@ TuneFixed == AmtAdd(Others, IF SubApplies THEN Zero ELSE Fee)                 \*
 TuneGoal == IF opts.tune[2] >= 0 THEN AmtAdd(TuneTarget, A(0, opts.tune[2]))
             ELSE IF AmtLE(A(0, -opts.tune[2]), TuneTarget) THEN AmtSub(TuneTarget, A(0, -opts.tune[2])) ELSE Zero
 TuneOK == opts.tune[1] = "none" \/ AmtLT(TuneFixed, TuneGoal)                 \* the tuned amount is at least 1 satoshi
-Req(i) == IF i = Len(dests) /\ opts.tune[1] # "none" THEN AmtSub(TuneGoal, TuneFixed) ELSE dests[i].amt
+Req(i) == IF i = Len(dests) /\ opts.tune[1] # "none" THEN AmtSub(TuneGoal, TuneFixed) ELSE Base(i)
 
 \* amounts as make_signed_tx sees them
 SubUnderflow == SubApplies /\ AmtLT(Req(1), Fee)
@@ -240,7 +254,7 @@ AddUnspent ==
 
 AddDest ==
     /\ phase = "dest"
-    /\ \E dt \in DTypes, am \in DAmts : dests' = Append(dests, [dt |-> dt, amt |-> AmtOf(am)])
+    /\ \E dt \in DTypes, am \in DAmts : dests' = Append(dests, [dt |-> dt, amt |-> AmtOf(am), cls |-> am])
     /\ phase' = IF Len(dests') = plan.nd THEN "optA" ELSE "dest"
     /\ UNCHANGED <<cfg, plan, unsp, opts, res, raw, rres, unsp2, res2>>
 
@@ -254,8 +268,8 @@ ChooseOptsA ==
 
 ChooseOptsB ==
     /\ phase = "optB"
-    /\ \E m \in Msgs, sq \in Seqs, lk \in Locks, vr \in Vers :
-          opts' = [opts EXCEPT !.msg = m, !.seqc = sq, !.lt = lk, !.ver = vr]
+    /\ \E m \in Msgs, sq \in Seqs, lk \in Locks, vr \in Vers, sg \in SigOpts :
+          opts' = [opts EXCEPT !.msg = m, !.seqc = sq, !.lt = lk, !.ver = vr, !.sig = sg]
     /\ phase' = "optC"
     /\ UNCHANGED <<cfg, plan, unsp, dests, res, raw, rres, unsp2, res2>>
 
